@@ -725,6 +725,7 @@ class Sim(FAM.FamilyMixin):
         if o is None:
             return None
         self.inc("probe.data_operand_is_live_handle")
+        self.last_live_store = o.store
         if o.masked or o.comp is not None:
             self.inc("probe.data_operand_is_masked_or_strided_view")
         return o.real, o.values()
@@ -733,9 +734,15 @@ class Sim(FAM.FamilyMixin):
         """right-hand side array for an assignment: fresh, or an existing handle of the same type with separate storage"""
         ln = max(0, want_len + op.get("dlen", 0))
         if op.get("src") == "slot":
-            o = self.pick(op["h2"], lambda x: x.kind == "arr" and x.tname == h.tname and x.store is not h.store and len(x.idx) == ln)
+            # one time in three the source may be a view of the destination's own storage (a[1:4] = a[mask]): like
+            # `l[1:4] = [l[i] for i in sel]` on a list, the right-hand side is read before anything is written
+            share = (op["h2"] // 7) % 3 == 0
+            o = self.pick(op["h2"], lambda x: x.kind == "arr" and x.tname == h.tname and (share or x.store is not h.store) and len(x.idx) == ln)
             if o:
                 self.inc("probe.assign_from_live_handle")
+                if o.store is h.store:
+                    self.inc("probe.assign_source_shares_storage_with_destination")
+                    self.ctx("setitem-array-source-shares-storage", h)
                 return o.real, o.values()
         vals = [fresh_value(h.tname, op["v"] * 16 + 5 + i) for i in range(ln)]
         return self.make_array(h.tname, vals), vals
@@ -791,9 +798,13 @@ class Sim(FAM.FamilyMixin):
         form = op["form"]
         ln = n if form == "full" else cnt if form == "packed" else n + 1 + (1 if n + 1 == cnt else 0)
         vals = [fresh_value(h.tname, op["v"] * 16 + 3 + i) for i in range(ln)]
-        ld = self.live_data(op, h.tname, ln, h.store)
+        share = (op["h"] // 13) % 3 == 0     # the data may be a view of the destination's own storage: read before written
+        ld = self.live_data(op, h.tname, ln, None if share else h.store)
         if ld:
             data, vals = ld
+            if self.last_live_store is h.store:
+                self.inc("probe.assign_source_shares_storage_with_destination")
+                self.ctx("setitem-mask-array-source-shares-storage", h)
         else:
             data = self.make_array(h.tname, vals)
         got = self.call(h.real.__setitem__, self.make_mask(bits), data)
